@@ -9,7 +9,7 @@ LEVEL = "fault_enumeration"
 EXHAUSTIVE = True
 RULE = ("an explicit enumeration of tag values placed under the type-tag key (every JSON type, empty / dotted / "
         "relative / double-dotted strings, names of modules, functions, type variables, constants, non-serialisable "
-        "classes, abstract classes, dotted paths into classes (nested classes, attributes and methods of classes), packages whose import raises ImportError / RuntimeError / SyntaxError, a module whose "
+        "classes, abstract classes, dotted paths into classes (nested classes, attributes and methods of classes), packages whose import raises ImportError / RuntimeError / SyntaxError / SystemExit, a serialisable class whose _from_json is a plain function, a module whose "
         "__getattr__ fails with KeyError) run completely, plus random tags assembled from dots and "
         "identifier fragments; a tag that an independent resolver finds to be a deserialisable class is skipped.  "
         "Oracle: every one of four consecutive presentations of the document (module-level from_json and "
@@ -17,7 +17,7 @@ RULE = ("an explicit enumeration of tag values placed under the type-tag key (ev
         "never another exception, never an object.  "
         "Non-trivial = the tag gets past the 'missing' test (truthy); distinct = the tag value")
 ASSUMPTIONS = ["documents carry arbitrary extra payload keys besides the tag",
-               "a module whose import ends the interpreter (SystemExit) is not part of the enumeration"]
+               "the error class is compared only where the problem is beyond doubt (no tag: MissingTypeError; a tag that is not a name: InvalidTypeFormatError)"]
 ANCHORS = ["SubclassJSONSerializer.from_json", "from_json"]
 
 FIXED_TAGS = [
@@ -36,7 +36,7 @@ FIXED_TAGS = [
     "krrood.adapters.nothere.X", "krrood..adapters.X", "dataclasses.dataclass", "dataclasses.MISSING", "enum.Enum",
     "abc.ABC", "decimal", "uuid", "uuid.uuid4", "uuid.NAMESPACE_DNS", "collections.abc", "collections.abc.Mapping",
     "sys.modules", "sys.path", "__main__.X", "__main__", "builtins.", ".builtins", "1.2", "1", "a.1", "a-b.c", "a/b.c",
-    "models.jsonmodel.PlainUUID", "models.jsonmodel.Coin",
+    "models.jsonmodel.PlainUUID", "models.jsonmodel.Coin", "models.jsonmodel.ForgotClassMethod", "models.jsonmodel.PlainFunctionFromJson", "models.badpkg_exit.Thing", "models.badpkg_exit",
     "models.jsonmodel.Outer", "models.jsonmodel.Outer.NestedNode", "models.jsonmodel.Outer.Missing", "models.jsonmodel.Outer.NestedNode.x",
     "models.jsonmodel.Node0.name", "models.jsonmodel.Node0._from_json", "json.decoder.JSONDecoder.decode", "json.decoder.JSONDecoder.decode.x",
     "os.path.join", "os.path.", "a\x00b.c", "os.\x00", "a" * 300 + ".b", "importlib.import_module", "types.ModuleType", "types.FunctionType", "functools.partial",
@@ -49,7 +49,7 @@ FRAGS = ["os", "path", "json", "krrood", "adapters", "json_serializer", "models"
 def plan(tier):
     return {"cases": 3000 if tier == "quick" else 100000, "shards": 8, "case_timeout": 20, "shard_timeout": 1200,
             "min_nontrivial": 80,
-            "min_counters": {"raised_documented": 300, "enumerated_tags": 80}}
+            "min_counters": {"raised_documented": 300, "enumerated_tags": 80, "identified_problems_checked": 100}}
 
 
 def setup(ctx):
@@ -83,6 +83,9 @@ def witnesses():
         "relative-module-name": {"tag": "..a.b", "missing": False, "extra": 0},
         "non-class-target": {"tag": "json.dumps", "missing": False, "extra": 0},
         "import-error-module": {"tag": "models.badpkg.Thing", "missing": False, "extra": 0},
+        "present-but-falsy-tag-reported-as-missing": {"tag": 0, "missing": False, "extra": 1},
+        "module-that-exits-on-import": {"tag": "models.badpkg_exit.Thing", "missing": False, "extra": 0},
+        "from-json-is-a-plain-function-with-a-class-parameter": {"tag": "models.jsonmodel.ForgotClassMethod", "missing": False, "extra": 0},
         "serialisable-class-without-from-json": {"tag": "krrood.adapters.json_serializer.SubclassJSONSerializer", "missing": False, "extra": 1},
     }
 
@@ -124,6 +127,15 @@ def independent_valid(tag):
         return False
     if issubclass(obj, SubclassJSONSerializer):
         # deserialisable only when the class says how it is created from json
+        raw = inspect.getattr_static(obj, "_from_json", None)
+        if inspect.isfunction(raw):
+            # a plain function in the class body is called on the class without an instance: the document is its first
+            # argument.  It says how the class is created from json iff it can be called like that
+            try:
+                inspect.signature(raw).bind({})
+                return True
+            except TypeError:
+                return False
         fj = vars(obj).get("_from_json", None) if "_from_json" in vars(obj) else getattr(obj, "_from_json", None)
         fj = getattr(fj, "__func__", fj)
         return callable(fj) and fj is not SubclassJSONSerializer._from_json.__func__
@@ -131,6 +143,15 @@ def independent_valid(tag):
     # sub-classes of a registered type would otherwise make such a tag look valid)
     from models import jsonmodel
     return obj in jsonmodel.REGISTERED_TYPES
+
+
+def not_a_name(tag):
+    """the tag is present but cannot be a qualified class name: not a string, empty, without a dot, or with an empty or
+    relative module part"""
+    if not isinstance(tag, str):
+        return True
+    mod, dot, cls = tag.rpartition(".")
+    return not dot or not mod or mod.startswith(".")
 
 
 def mechanism(tag, exc):
@@ -184,7 +205,15 @@ def run(spec, ctx):
             C["raised_documented"] += 1
             C["err:" + type(e).__name__] += 1
             errors.append(type(e).__name__)
-        except Exception as e:
+            # "identifies the problem", where the problem is beyond doubt: no tag at all / a tag that is not a name
+            want = "MissingTypeError" if spec["missing"] else "InvalidTypeFormatError" if not_a_name(tag) else None
+            if want:
+                C["identified_problems_checked"] += 1
+            if want and type(e).__name__ != want:
+                return {"status": "fail", "kind": "wrong-error:" + type(e).__name__, "key": None,
+                        "detail": f"tag={tag!r} (missing={spec['missing']}) attempt {n + 1} via {ename} raised {type(e).__name__}, "
+                                  f"the problem is a {want}"[:300]}
+        except (Exception, SystemExit) as e:
             key = mechanism(tag, e)
             C["escaped:" + type(e).__name__] += 1
             return {"status": "fail", "kind": "undocumented-exception:" + type(e).__name__, "key": key,
